@@ -5,6 +5,7 @@ No verdicts are computed here: the driver concretises, calls, abstracts.  TLC (W
 usage: wire.py SCENARIOS.json TRACES.json
 """
 import json
+import os
 import sys
 
 sys.path.insert(0, __import__('os').path.dirname(__import__('os').path.dirname(__import__('os').path.abspath(__file__))))
@@ -230,6 +231,9 @@ def run(scn):
 
 
 def main():
+    if os.environ.get('VERIF_RANDOMIZE'):
+        import jsonvals
+        jsonvals.randomize(int(os.environ['VERIF_RANDOMIZE']) + len(sys.argv[1]) + hash(os.path.basename(sys.argv[1])) % 1000)
     scns = json.load(open(sys.argv[1]))
     traces = [run(s) for s in scns]
     json.dump(traces, open(sys.argv[2], 'w'))
